@@ -480,7 +480,9 @@ impl HttpServer {
     /// Note that this function can block the thread on write, since the
     /// operation is blocking.
     pub fn flush_outgoing_writes(&mut self) {
-        for (_, connection) in self.connections.iter_mut() {
+        let epoll = &self.epoll;
+        for (fd, connection) in self.connections.iter_mut() {
+            let was_outgoing = connection.state == ClientConnectionState::AwaitingOutgoing;
             while connection.state == ClientConnectionState::AwaitingOutgoing {
                 if let Err(e) = connection.write() {
                     if let ServerError::ConnectionError(ConnectionError::InvalidWrite) = e {
@@ -489,6 +491,15 @@ impl HttpServer {
                     }
                     break;
                 }
+            }
+            // If everything was written the connection awaits incoming bytes again, so its
+            // `epoll` event set has to follow, exactly as after a write in `requests()`.
+            if was_outgoing && connection.state == ClientConnectionState::AwaitingIncoming {
+                let _ = Self::epoll_mod(
+                    epoll,
+                    *fd,
+                    epoll::EventSet::IN | epoll::EventSet::READ_HANG_UP,
+                );
             }
         }
     }
